@@ -175,6 +175,14 @@ neg = [
     ("not-paren-and", "!(F.B && F.C)", "verif.Not(verif.And(f.B, f.C))"),
     ("not-binds-tighter-than-and", "!F.B && F.C", "verif.And(verif.Not(f.B), f.C)"),
     ("not-paren-or-mixed", "!(F.B || F.I > 3) && F.C", "verif.And(verif.Not(verif.Or(f.B, f.I > 3)), f.C)"),
+    # strings: '+' concatenates in operand order (both orders in one knowledge base), comparisons are lexicographic
+    ("string-plus-order-1", 'F.S + F.R == "gono"', 'f.S+f.R == "gono"'),
+    ("string-plus-order-2", 'F.R + F.S == "nogo"', 'f.R+f.S == "nogo"'),
+    ("string-plus-literal-left", '"a" + F.S == "ago"', '"a"+f.S == "ago"'),
+    ("string-plus-literal-right", 'F.S + "a" == "goa"', 'f.S+"a" == "goa"'),
+    ("string-less", 'F.S < F.R', 'f.S < f.R'),
+    ("string-greater-equal", 'F.S >= F.R', 'f.S >= f.R'),
+    ("string-not-equal", 'F.S != F.R', 'f.S != f.R'),
 ]
 
 PER = 30
